@@ -27,6 +27,7 @@ CONSTANTS
   CookieThreshold,  \* cookie armed iff #half-open IKE_SAs (incl. the new one) > CookieThreshold
   StartEstablished, \* TRUE: start from one established IKE_SA with one CHILD_SA; FALSE: empty tables
   MaxSpi,           \* state constraint: SPI counters stay <= MaxSpi
+  IdleTimers,       \* TRUE: the DPD / rekey / lifetime timers may also come due while the IKE_SA is NOT established (they then do nothing: TimerIdle)
   FreeRetx,         \* TRUE: retransmissions do not draw on the duplication budget (liveness configuration)
   KnownToBothOnly,  \* TRUE: expire triggers only for CHILD_SAs already known to both peers (the carve-out of C09)
   AsPinned_C16      \* TRUE: register the rekeyed IKE_SA on the *state* (pinned tree), FALSE: on the transition
@@ -259,6 +260,15 @@ TrigRekeyIke(s) ==
            [sas[s] EXCEPT !.newSa = c], 1, 1, "TrigRekeyIke")
 TrigDeleteIke(s) == TimerReq(s, "delike", "DEL_IKE_SA_REQ_SENT", "INFO", [kind |-> "del_ike"], sas[s], 0, 0, "TrigDeleteIke")
 TrigDpd(s)       == TimerReq(s, "dpd", "DPD_REQ_SENT", "INFO", [kind |-> "dpd"], sas[s], 0, 0, "TrigDpd")
+
+\* a DPD / rekey / hard-lifetime deadline passes while the IKE_SA is busy, half-open, already rekeyed ...: the timer section of main_loop visits it and nothing
+\* happens (check_dead_peer_detection_timer / check_rekey_ike_sa_timer act on ESTABLISHED only); the deadline stays due and fires once the IKE_SA is idle again
+TimerIdle(s, which) ==
+  /\ IdleTimers /\ which \in {"rekeyike", "delike", "dpd"}
+  /\ s \in Listed(Owner(s)) /\ sas[s].st # "ESTABLISHED"
+  /\ UseTrig(which)
+  /\ UNCHANGED <<sas, table, kern, net, nspi, dh>>
+  /\ last' = [a |-> "TimerIdle", s |-> s, which |-> which, out |-> NoMsg]
 
 \* check_retransmission_timer (ikesa.py:860-874), abstract time: the stored request goes out again, unchanged
 Retransmit(s) ==
@@ -553,6 +563,7 @@ Next ==
   \/ \E e \in E : \E s \in Listed(e) : \E k \in sas[s].kids : \E hard \in BOOLEAN : CtlExpire(e, k.in, hard)
   \/ \E s \in DOMAIN sas : TrigRekeyIke(s) \/ TrigDeleteIke(s) \/ TrigDpd(s)
   \/ \E s \in DOMAIN sas : Retransmit(s) \/ GiveUp(s)
+  \/ \E s \in DOMAIN sas : \E which \in {"rekeyike", "delike", "dpd"} : TimerIdle(s, which)
   \/ \E m \in net : \E keep \in BOOLEAN : CtlDispatch(m, keep)
   \/ \E m \in net : NetDrop(m)
   \/ \E s \in DOMAIN sas : \E x \in {"INIT", "AUTH", "CCSA", "INFO"} : \E resp \in BOOLEAN : \E fi \in BOOLEAN :
